@@ -130,6 +130,7 @@ def ops(D):
     add("swap_free", "Arr& a, Arr& b", "swap(a, b);", {0: "live", 1: "live"})
     add("sswap_free", "SArr& a, SArr& b", "swap(a, b);", {0: "live", 1: "live"})
     add("assign_iters", "Arr& a, typename Arr::const_iterator f, typename Arr::const_iterator l", "a.assign(f, l);", {0: "live"})
+    add("assign_ilist", "Arr& a, std::initializer_list<typename Arr::value_type> il", "a = il;", {0: "live"})
     # through views (C05)
     add("view_assign_view", "Sub& v, CSub const& w", "v = w;", {0: "view", 1: "view"}, "view")
     add("view_assign_array", "Sub& v, Arr const& b", "v = b;", {0: "view", 1: "live"}, "view")
